@@ -14,6 +14,7 @@ from mc.props import _seqbind as SB
 
 V = lambda n: ('var', n)   # noqa
 L = lambda v: ('lit', v)   # noqa
+S2 = lambda *v: ('seq', [('lit', x) for x in v])   # noqa
 
 GRID = [-math.inf, -1.0, 0.0, 0.5, 1.0, 1.5, 2.0, 2.5, 3.0, 4.0, math.inf, math.nan]
 INTPOS = [-1, 0, 1, 2, 3, 4, 5]
@@ -243,7 +244,27 @@ def run_unit(unit, tier, acc):
                 check(ver, ('map', s, ('pos',)), env, w, acc, g)
                 check(ver, ('map', s, ('last',)), env, w, acc, g)
                 check(ver, ('map', ('map', s, ('seq', [('ctx',), L(7)])), ('pos',)), env, w, acc, g)
-        nums = [x for x in short if all(isinstance(i, int) for i in x)] + [[1, 2, 3]]
+        nums = [x for x in short if all(isinstance(i, int) for i in x)] + [[1, 2, 3], [3, 1], [2, 2, 1]]
+        # later ranges that depend on earlier variables of the same clause
+        for a in nums:
+            env = {'a': a}
+            dep = ('range', L(1), V('x'))
+            check(ver, ('for', [('x', V('a')), ('y', dep)], V('y')), env, w, acc, g)
+            check(ver, ('for', [('x', V('a')), ('y', dep)], ('arith', '+', ('arith', '*', L(10), V('x')), V('y'))), env, w, acc, g)
+            check(ver, ('for', [('x', V('a')), ('y', dep), ('z', ('range', V('y'), V('x')))], ('seq', [V('x'), V('y'), V('z')])), env, w, acc, g)
+            for v in (1, 2, 3):
+                check(ver, ('some', [('x', V('a')), ('y', dep)], ('gcmp', '=', V('y'), L(v))), env, w, acc, g)
+                check(ver, ('every', [('x', V('a')), ('y', dep)], ('gcmp', '<', V('y'), L(v))), env, w, acc, g)
+            # quantifier/for variable shadowing an outer binding that is read afterwards
+            for q in ('some', 'every'):
+                inner = (q, [('x', S2(5, 6))], ('gcmp', '=', V('x'), L(6)))
+                check(ver, ('for', [('x', V('a'))], ('seq', [inner, V('x')])), env, w, acc, g)
+                check(ver, ('for', [('x', V('a'))], ('if', inner, V('x'), ('arith', '-', L(0), V('x')))), env, w, acc, g)
+                if ver != '2.0':
+                    check(ver, ('let', [('x', V('a'))], ('seq', [inner, V('x')])), env, w, acc, g)
+            check(ver, ('for', [('x', V('a'))], ('seq', [('for', [('x', S2(8, 9))], V('x')), V('x')])), env, w, acc, g)
+            if ver != '2.0':
+                check(ver, ('for', [('x', V('a'))], ('seq', [('let', [('x', L(7))], V('x')), V('x')])), env, w, acc, g)
         for a in short:
             for b in short:
                 env = {'a': a, 'b': b}
